@@ -2,6 +2,11 @@
 
 (a) GMRF() == (N-1)/2 log tau - x^T Q x / 2 - (N-1)/2 log 2pi with Q = GMRF.precision_matrix()
     (plain, weighted, time-aware with symbolic heights -> argsort regions);
+(a') the weighted / time-aware branches of GMRF._call and GMRFGammaIntegrated._call against the INTENDED structure matrix
+    (built per sample from the weights / the sorted coalescent times and the root height of THAT sample), unbatched and
+    for batches whose trees have different root heights and different orders of the internal nodes, real TimeTreeModel
+    with symbolic internal heights.  (a) cannot decide these branches: precision_matrix() ignores weights and durations
+    (known finding), so every weighted / time-aware run of (a) ends in the same known signature;
 (b) GMRFGammaIntegrated() == closed form of the Gamma integral (symbolic shape / rate / field);
 (c) ConstantCoalescentIntegrated.log_prob == closed form of the inverse-gamma integral;
 (d) sufficient_statistics() of the piecewise-constant coalescents reproduce log_prob.
@@ -115,6 +120,348 @@ def gmrf_replay(N, kind, rescale, batched, vals):
         if abs(float(val[b]) - want) > 1e-9 * max(1.0, abs(want)):
             return True, (f'GMRF() = {float(val[b])} but the quadratic form with precision_matrix() gives {want} '
                           f'(field {rows[b]}, precision {taus[b]})')
+    return False, 'agree'
+
+
+# ------------------------------------------------------------------ (a') GMRF / GMRFGammaIntegrated vs the INTENDED form
+# The published precision matrix ignores weights / durations (known finding), so the obligations above never say
+# anything about the weighted and time-aware branches of _call: every run ends in the same known signature.  The
+# obligations below decide those branches against an oracle that is written independently of the implementation:
+#   time-aware:  K_b = D' diag(c_b) D,  c_b,i = [root_b] * 2 / (t_b,i+1 - t_b,i-1)   (t_b = 0 and the sorted internal
+#                heights of tree b; the order statistics are an ite sorting network, not the implementation's argsort)
+#   weighted:    K_b = D' diag(1 / w_b) D
+# for every sample b of a batch, with the REAL TimeTreeModel (symbolic internal heights) as the tree model.
+VARIANTS = {
+    # name: (batch size, tree/weights batched, precision batched)
+    'single': (1, False, False),
+    'batch': (2, True, True),
+    'batch3': (3, True, True),
+    'shared-tree': (2, False, True),  # one tree / one weight vector for the whole batch
+    'shared-precision': (2, True, False),
+}
+
+
+def _defined_goals(t, d, sig):
+    """well-definedness of everything the run computed (implementation and oracle), one obligation per denominator and
+    per log / sqrt argument instead of the Explorer's single conjunction: the sign of every denominator is proved first
+    (linear arithmetic for durations / weights), then the sign of its inverse, and these facts are the lemmas for the
+    positivity of the log arguments (sums of squares times inverses).  The lemma goals are optional (alternative TRUE);
+    the required obligations are denominator != 0 and argument in domain."""
+    goals, lemmas = [], []
+    for b in dict.fromkeys(t.denominators):
+        pos = d.vals[b] > 0
+        gb = Goal('a denominator is non-zero (keeps the sign it has at the witness)', d.lt(0, b) if pos else d.lt(b, 0),
+                  alts=[d.not_(d.eq(b, 0))], signature=sig + ':well-defined')
+        inv = d.div(d.const(1), b)
+        li = Goal('lemma: the inverse of a denominator has the sign of the denominator', d.lt(0, inv) if pos else d.lt(inv, 0),
+                  alts=[d.TRUE], signature=sig + ':well-defined')
+        li.hyp_goals = [gb]
+        goals += [gb, li]
+        lemmas += [gb, li]
+    for kind, x in dict.fromkeys(t.domains):
+        node = d.lt(0, x) if kind == 'pos' else d.le(0, x)
+        g = Goal('a log / sqrt argument is inside its domain', node, hyps=ground_axioms(d, [node]), signature=sig + ':well-defined')
+        g.hyp_goals = list(lemmas)
+        goals.append(g)
+    return goals
+
+
+def _witness_order(wvals):
+    """the permutation that sorts the witness values of one sample's internal heights (the oracle's own sort)"""
+    return sorted(range(len(wvals)), key=lambda i: (wvals[i], i))
+
+
+def _structure_coefficients(d, kind, N, aux, rescale, order=None):
+    """c_i (i = 0..N-2): coefficient of (x_i - x_i+1)^2 in the intended quadratic form.
+    time-aware: `order` is a permutation of the internal nodes; the coefficients are those of the coalescent times
+    t = (0, aux[order[0]], ..., aux[order[N-1]]), which are the order statistics wherever that sequence is
+    non-decreasing (separate obligation, see intended_body)"""
+    if kind == 'weighted':
+        return [d.div(d.const(1), w) for w in aux]
+    ts = [d.const(0)] + [aux[k] for k in order]
+    dur = [d.sub(ts[k], ts[k - 1]) for k in range(1, N + 1)]  # N inter-coalescent intervals
+    cs = []
+    for i in range(N - 1):
+        mean = d.div(d.add(dur[i], dur[i + 1]), d.const(2))
+        cs.append(d.div(ts[-1] if rescale else d.const(1), mean))
+    return cs
+
+
+def _quadratic_form(d, x, cs):
+    """x' K x with K = D' diag(cs) D written out entry by entry (tridiagonal, zero row sums)"""
+    N = len(x)
+    K = [[d.const(0)] * N for _ in range(N)]
+    for i in range(N):
+        diag = d.const(0)
+        if i > 0:
+            diag = d.add(diag, cs[i - 1])
+        if i < N - 1:
+            diag = d.add(diag, cs[i])
+            K[i][i + 1] = K[i + 1][i] = d.neg(cs[i])
+        K[i][i] = diag
+    quad = d.const(0)
+    for i in range(N):
+        for j in range(N):
+            if abs(i - j) <= 1:
+                quad = d.add(quad, d.mul(d.mul(x[i], K[i][j]), x[j]))
+    return quad
+
+
+def _tree_shapes(N):
+    """rooted tree shapes with N internal nodes (N+1 taxa) as nested tuples: they differ in which pairs of internal
+    nodes are unordered, i.e. in the argsort regions a tree can reach"""
+    n = N + 1
+    if n == 3:
+        return [cm.caterpillar(3)]
+    if n == 4:
+        return [cm.caterpillar(4), cm.balanced(4)]
+    if n == 5:
+        return [cm.caterpillar(5), (cm.balanced(4), 4), (((0, 1), 2), (3, 4))]
+    if n == 6:
+        return [cm.caterpillar(6), ((cm.balanced(4), 4), 5), ((((0, 1), 2), (3, 4)), 5), (cm.caterpillar(4), (4, 5)),
+                (cm.balanced(4), (4, 5)), (((0, 1), 2), ((3, 4), 5))]
+    raise ValueError(n)
+
+
+def _tip_dates(N, hetero):
+    n = N + 1
+    return [0.0] * n if not hetero else [0.0] + [0.125 * (i % 3) for i in range(1, n)]
+
+
+def _real_tree(N, shape, hetero):
+    import torchtree.evolution.taxa  # noqa (registers the short type names)
+    import torchtree.evolution.tree_model  # noqa
+
+    dic = {}
+    cm.build(cm.taxa_json(N + 1, _tip_dates(N, hetero)), dic)
+    tree, _ = cm.build(cm.time_tree_json(shape, N + 1), dic)
+    return tree, dic['tree.heights']
+
+
+def _tree_order(tree):
+    """(parent, child) pairs of node indices of the real tree model"""
+    return [(int(p), int(c)) for p, c in tree.preorder.tolist()]
+
+
+def intended_names(model, N, kind, variant):
+    B, aux_batched, prec_batched = VARIANTS[variant]
+    names = {'x': [[f'x{b}_{i}' for i in range(N)] for b in range(B)]}
+    if model == 'gmrf':
+        names['tau'] = [f'tau{b}' for b in range(B if prec_batched else 1)]
+    else:
+        names['tau'] = []
+    A = B if aux_batched else 1
+    if kind == 'time-aware':
+        names['aux'] = [[f'h{b}_{i}' for i in range(N)] for b in range(A)]
+    else:
+        names['aux'] = [[f'w{b}_{i}' for i in range(N - 1)] for b in range(A)]
+    return names
+
+
+def intended_body(model, N, kind, rescale, variant, shape, hetero):
+    from torchtree.core.parameter import Parameter
+    from torchtree.distributions import gmrf_integrated as gi
+    from torchtree.distributions.gmrf import GMRF
+
+    B, aux_batched, prec_batched = VARIANTS[variant]
+    nm = intended_names(model, N, kind, variant)
+    batched = B > 1
+
+    def body(t, V, W):
+        d = t.dag
+
+        def sym(rows, squeeze):
+            ids = [[V[k] for k in r] for r in rows]
+            return from_ids(torch.tensor(ids[0] if squeeze else ids, dtype=torch.int64))
+
+        field = Parameter('field', sym(nm['x'], not batched))
+        tree = weights = None
+        if kind == 'time-aware':
+            tree, hp = _real_tree(N, shape, hetero)
+            hp.tensor = sym(nm['aux'], not aux_batched)
+        else:
+            weights = sym(nm['aux'], not aux_batched)
+        if model == 'gmrf':
+            prec = Parameter('prec', from_ids(torch.tensor([[V[k]] for k in nm['tau']] if (batched and prec_batched) else [V[nm['tau'][0]]],
+                                                           dtype=torch.int64)))
+            val = GMRF('gmrf', field, prec, tree, weights, rescale)()
+        else:
+            saved = gi.math
+            gi.math = SymMath()
+            try:
+                val = gi.GMRFGammaIntegrated('g', field, mkfloat(V['alpha']), mkfloat(V['beta']), tree, weights, rescale)()
+            finally:
+                gi.math = saved
+        goals = []
+        if tuple(val.shape) != ((B, 1) if batched else (1,)):
+            return [Goal(f'{model}: one log density per sample', d.FALSE, signature=f'{SIG[model]}:{kind}:sample-shape')]
+        vids = val._ids.reshape(-1).tolist()
+        half = d.const((N - 1) / 2)
+        for b in range(B):
+            x = [V[k] for k in nm['x'][b]]
+            auxn = nm['aux'][b if aux_batched else 0]
+            aux = [V[k] for k in auxn]
+            order = None
+            if kind == 'time-aware':
+                # the oracle sorts the witness itself; that this order is the sorted one on the whole region (and not only
+                # at the witness) is an obligation of its own: it must follow from the domain and the decisions the
+                # implementation took (linear arithmetic).  Where it does not, the implementation did not sort this sample.
+                order = _witness_order([W[k] for k in auxn])
+                chain = [d.le(aux[p], aux[q]) for p, q in zip(order, order[1:])]
+                goals.append(Goal(f'[sample {b} of {B}] the decisions taken by the implementation fix the order of the coalescent '
+                                  f'times of THIS sample (oracle order {order})', d.and_(*chain) if chain else d.TRUE,
+                                  signature=f'{SIG[model]}:{kind}:coalescent-times-not-ordered-per-sample' + (':batched' if batched else '')))
+            cs = _structure_coefficients(d, kind, N, aux, rescale, order)
+            if model == 'gmrf':
+                quad = _quadratic_form(d, x, cs)
+            else:
+                # x'Kx = sum_i c_i (x_i - x_i+1)^2 (K = D' diag(c) D); the matrix form itself is decided for GMRF() above.
+                # Inside the uninterpreted log the solvers need the two arguments in comparable shape.
+                quad = d.const(0)
+                for i in range(N - 1):
+                    df = d.sub(x[i], x[i + 1])
+                    quad = d.add(quad, d.mul(cs[i], d.mul(df, df)))
+            if model == 'gmrf':
+                tau = V[nm['tau'][b if prec_batched else 0]]
+                orc = d.add(d.add(d.mul(half, d.log(tau)), d.mul(d.const(-0.5), d.mul(tau, quad))),
+                            d.mul(d.neg(half), d.const(LOG2PI)))
+                what = 'GMRF() == (N-1)/2 log tau - tau/2 x\'Kx - (N-1)/2 log 2pi'
+            else:
+                al, be = V['alpha'], V['beta']
+                orc = d.add(d.mul(d.neg(half), d.const(math.log(2.0 * math.pi))), d.mul(al, d.log(be)))
+                orc = d.add(orc, d.neg(d.uf('lgamma', al)))
+                orc = d.add(orc, d.uf('lgamma', d.add(al, half)))
+                orc = d.add(orc, d.neg(d.mul(d.add(al, half), d.log(d.add(be, d.mul(d.const(0.5), quad))))))
+                what = 'GMRFGammaIntegrated() == closed-form Gamma integral with x\'Kx'
+            goal = d.eq(vids[b], orc)
+            goals.append(Goal(f'[sample {b} of {B}] {what}, K = intended {kind} structure matrix of THIS sample',
+                              goal, hyps=ground_axioms(d, [goal]),
+                              signature=f'{SIG[model]}:{kind}:density-vs-intended-structure-matrix' + (':batched' if batched else '')))
+        return goals + _defined_goals(t, d, f'{SIG[model]}:{kind}')
+
+    fns = [GMRF._call] if model == 'gmrf' else [gi.GMRFGammaIntegrated._call, gi.GMRFGammaIntegrated.__init__]
+    return body, fns
+
+
+SIG = {'gmrf': 'GMRF', 'integrated': 'GMRFGammaIntegrated'}
+
+
+def intended_witness(model, N, kind, variant, shape, hetero):
+    nm = intended_names(model, N, kind, variant)
+    W = {}
+    for b, r in enumerate(nm['x']):
+        W.update({k: 0.3 * i * i - 0.2 * b + 0.1 * (1 + b) * i + 0.1 for i, k in enumerate(r)})
+    for b, k in enumerate(nm['tau']):
+        W[k] = 1.7 + b
+    if model == 'integrated':
+        W.update({'alpha': 1.3, 'beta': 0.7})
+    if kind == 'time-aware':
+        # heights that respect the tree: a node sits above its children; different root heights per sample
+        tree, _ = _real_tree(N, shape, hetero)
+        tc = N + 1
+        for b, r in enumerate(nm['aux']):
+            hv = {}
+            tips = tree.sampling_times.tolist()
+            for node in tree.tree.postorder_node_iter():
+                if node.is_leaf():
+                    hv[node.index] = float(tips[node.index])
+                else:
+                    hv[node.index] = max(hv[c.index] for c in node.child_node_iter()) + 0.5 + 0.25 * ((node.index + b) % 3) + 0.75 * b
+            for i, k in enumerate(r):
+                W[k] = hv[tc + i]
+    else:
+        for b, r in enumerate(nm['aux']):
+            W.update({k: 0.6 + 0.5 * i + 0.3 * b for i, k in enumerate(r)})
+    return W
+
+
+def intended_domain(model, N, kind, variant, shape, hetero):
+    nm = intended_names(model, N, kind, variant)
+    order = tips = None
+    if kind == 'time-aware':
+        tree, _ = _real_tree(N, shape, hetero)
+        order = _tree_order(tree)
+        tips = [float(v) for v in tree.sampling_times.tolist()]
+    tc = N + 1
+
+    def domain(d, V):
+        cs = [d.lt(0, V[k]) for k in nm['tau']]
+        if model == 'integrated':
+            cs += [d.lt(0, V['alpha']), d.lt(0, V['beta'])]
+        for r in nm['aux']:
+            if kind == 'weighted':
+                cs += [d.lt(0, V[k]) for k in r]
+                continue
+            for p, c in order:  # the heights are those of a tree: every node is older than its children
+                cs.append(d.lt(V[r[c - tc]] if c >= tc else d.const(tips[c]), V[r[p - tc]]))
+            cs += [d.lt(0, V[k]) for k in r]
+            # three coalescent events at the same time make an interval pair of length zero (needs >= 6 taxa)
+            for i, j, k in itertools.combinations(range(N), 3):
+                cs.append(d.not_(d.and_(d.eq(V[r[i]], V[r[j]]), d.eq(V[r[j]], V[r[k]]))))
+        return cs
+
+    return domain
+
+
+def intended_replay(model, N, kind, rescale, variant, shape, hetero, vals, W):
+    """the real classes on plain tensors (real TimeTreeModel) against a float oracle written with sorted() and an explicit
+    tridiagonal matrix"""
+    from torchtree.core.parameter import Parameter
+    from torchtree.distributions.gmrf import GMRF
+    from torchtree.distributions.gmrf_integrated import GMRFGammaIntegrated
+
+    B, aux_batched, prec_batched = VARIANTS[variant]
+    nm = intended_names(model, N, kind, variant)
+    batched = B > 1
+    get = lambda k: float(vals[k]) if vals.get(k) is not None else float(W[k])  # noqa
+    X = [[get(k) for k in r] for r in nm['x']]
+    A = [[get(k) for k in r] for r in nm['aux']]
+    taus = [get(k) for k in nm['tau']]
+    field = Parameter('field', torch.tensor(X if batched else X[0], dtype=torch.float64))
+    tree = weights = None
+    if kind == 'time-aware':
+        tree, hp = _real_tree(N, shape, hetero)
+        hp.tensor = torch.tensor(A if aux_batched else A[0], dtype=torch.float64)
+    else:
+        weights = torch.tensor(A if aux_batched else A[0], dtype=torch.float64)
+    try:
+        if model == 'gmrf':
+            prec = Parameter('prec', torch.tensor([[v] for v in taus] if (batched and prec_batched) else [taus[0]], dtype=torch.float64))
+            val = GMRF('gmrf', field, prec, tree, weights, rescale)()
+        else:
+            al, be = get('alpha'), get('beta')
+            val = GMRFGammaIntegrated('g', field, al, be, tree, weights, rescale)()
+    except Exception as e:
+        return True, f'raised {type(e).__name__}: {e}'
+    if tuple(val.shape) != ((B, 1) if batched else (1,)):
+        return True, f'value has shape {tuple(val.shape)} for a batch of {B}'
+    val = val.reshape(-1).tolist()
+    for b in range(B):
+        x = X[b]
+        a = A[b if aux_batched else 0]
+        if kind == 'weighted':
+            cs = [1.0 / w for w in a]
+        else:
+            ts = [0.0] + sorted(a)
+            cs = [(ts[-1] if rescale else 1.0) / ((ts[i + 1] - ts[i - 1]) / 2.0) for i in range(1, N)]
+        K = torch.zeros(N, N, dtype=torch.float64)
+        for i, c in enumerate(cs):
+            K[i, i] += c
+            K[i + 1, i + 1] += c
+            K[i, i + 1] -= c
+            K[i + 1, i] -= c
+        xt = torch.tensor(x, dtype=torch.float64)
+        quad = float(xt @ K @ xt)
+        if model == 'gmrf':
+            tau = taus[b if prec_batched else 0]
+            want = 0.5 * (N - 1) * math.log(tau) - 0.5 * tau * quad - 0.5 * (N - 1) * math.log(2 * math.pi)
+        else:
+            want = (-(N - 1) / 2 * math.log(2 * math.pi) + al * math.log(be) - math.lgamma(al) + math.lgamma(al + (N - 1) / 2)
+                    - (al + (N - 1) / 2) * math.log(be + quad / 2))
+        if not abs(val[b] - want) <= 1e-9 * max(1.0, abs(want)):
+            desc = f'internal heights {a}' if kind == 'time-aware' else f'weights {a}'
+            return True, (f'sample {b} of {B}: {SIG[model]}() = {val[b]} but the Gaussian quadratic form with the {kind} structure '
+                          f'matrix of that sample gives {want} (field {x}, {desc}, rescale={rescale}; all samples: {A})')
     return False, 'agree'
 
 
@@ -401,10 +748,37 @@ def run_task(task, tr):
                 cs += [d.lt(0, V[f'h{i}']) for i in range(N)]
                 # distinct coalescent times (durations appear as denominators)
                 cs += [d.not_(d.eq(V[f'h{i}'], V[f'h{j}'])) for i in range(N) for j in range(i)]
+                # the stand-in carries the heights of a tree: the root is the last node and the oldest
+                cs += [d.lt(V[f'h{i}'], V[f'h{N - 1}']) for i in range(N - 1)]
             return cs
 
         rp = lambda vals: gmrf_replay(N, gk, rescale, batched, vals)  # noqa
         extra = {'N': N, 'kind': gk}
+    elif kind == 'intended':
+        _, model, N, gk, rescale, variant, si, hetero = task
+        shape = _tree_shapes(N)[si] if gk == 'time-aware' else None
+        body, fns = intended_body(model, N, gk, rescale, variant, shape, hetero)
+        B = VARIANTS[variant][0]
+        label = (f'{SIG[model]} vs intended structure matrix: N={N} {gk} rescale={rescale} batching={variant}'
+                 + (f' tree={cm.to_newick(shape)} tips={"heterochronous" if hetero else "at 0"}' if shape is not None else ''))
+        W = intended_witness(model, N, gk, variant, shape, hetero)
+        domain = intended_domain(model, N, gk, variant, shape, hetero)
+        W0 = dict(W)
+        rp = lambda vals: intended_replay(model, N, gk, rescale, variant, shape, hetero, vals, W0)  # noqa
+        extra = {'model': model, 'N': N, 'kind': gk, 'rescale': rescale, 'batching': variant,
+                 'tree': cm.to_newick(shape) if shape is not None else None, 'heterochronous': hetero}
+        tr.bounds['intended structure matrix'] = (
+            'field length 2..4 (5 thorough); batch shapes [] and [2] ([3] thorough) with the tree / weights and the precision '
+            'batched or shared; time-aware: real TimeTreeModel, every rooted tree shape with N+1 taxa, internal heights '
+            'symbolic subject to parent > child, tips at 0 or at fixed heterochronous dates; both values of rescale; '
+            'GMRFGammaIntegrated: field length 3 (2..4 thorough), symbolic shape / rate shared by the batch')
+        if gk == 'time-aware':
+            tr.assumptions.add('time-aware GMRF: no three coalescent events at exactly the same time (an interval pair of '
+                               'length zero divides by zero); ties of two events are inside the domain')
+            tr.assumptions.add('time-aware GMRF: the newick topology only fixes which internal heights are ordered '
+                               '(parent > child); tip dates are concrete (TimeTreeModel.sampling_times is built from the taxa)')
+        if model == 'integrated':
+            tr.stubs.add('gmrf_integrated.math -> SymMath (log / lgamma of the symbolic shape and rate stay symbolic, lgamma uninterpreted)')
     elif kind == 'integrated':
         _, N = task
         body, fns = integrated_body(N)
@@ -428,6 +802,8 @@ def run_task(task, tr):
             cs += [d.eq(V[f's{i}'], 0) for i in range(N + 1)]
             cs += [d.lt(0, V[f'h{i}']) for i in range(N)]
             cs += [d.not_(d.eq(V[f'h{i}'], V[f'h{j}'])) for i in range(N) for j in range(i)]
+            # the stand-in carries the heights of a tree: the root is the last node and the oldest
+            cs += [d.lt(V[f'h{i}'], V[f'h{N - 1}']) for i in range(N - 1)]
             return cs
 
         rp = lambda vals: integrated_time_replay(N, rescale, vals)  # noqa
@@ -460,12 +836,48 @@ def run_task(task, tr):
         rp = lambda vals: suffstat_replay(model, n, G, vals)  # noqa
         extra = {'model': model, 'n': n, 'G': G}
     tr.fn(*fns)
-    ex = Explorer(W, domain, body, tr, max_regions=300, timeout=40.0, label=label, deadline=time.time() + 900)
+    ex = Explorer(W, domain, body, tr, max_regions=300, timeout=40.0, label=label, deadline=time.time() + 900,
+                  check_defined=(kind != 'intended'))  # the 'intended' bodies return their own well-definedness goals
     out = ex.run()
     for s in out.region_samples[:1]:
         s['case'] = label
         tr.sample(s)
     triage(out, rp, tr, label, extra)
+
+
+def intended_tasks(tier):
+    """GMRF / GMRFGammaIntegrated against the intended (weighted / time-aware) structure matrix, single and batched"""
+    thorough = tier == 'thorough'
+    ts = []
+    for N in ((2, 3, 4, 5) if thorough else (2, 3, 4)):
+        for si in range(len(_tree_shapes(N))):
+            for rescale in (True, False):
+                for variant in ('single', 'batch'):
+                    ts.append(('intended', 'gmrf', N, 'time-aware', rescale, variant, si, False))
+                    if thorough and N <= 4:
+                        ts.append(('intended', 'gmrf', N, 'time-aware', rescale, variant, si, True))
+    for rescale in (True, False):
+        ts.append(('intended', 'gmrf', 3, 'time-aware', rescale, 'batch', 1, True))  # heterochronous tips
+        ts.append(('intended', 'gmrf', 3, 'time-aware', rescale, 'shared-tree', 1, False))
+        ts.append(('intended', 'gmrf', 3, 'time-aware', rescale, 'shared-precision', 1, False))
+        if thorough:
+            for N in (3, 4):
+                for si in range(len(_tree_shapes(N))):
+                    ts.append(('intended', 'gmrf', N, 'time-aware', rescale, 'batch3', si, False))
+                    ts.append(('intended', 'gmrf', N, 'time-aware', rescale, 'shared-tree', si, True))
+                    ts.append(('intended', 'gmrf', N, 'time-aware', rescale, 'shared-precision', si, True))
+    for N in ((2, 3, 4, 5) if thorough else (3, 4)):
+        for variant in ('single', 'batch', 'shared-tree') + (('batch3', 'shared-precision') if thorough else ()):
+            ts.append(('intended', 'gmrf', N, 'weighted', True, variant, 0, False))
+    # the integrated prior repeats the weighting code of GMRF._call
+    for N in ((2, 3, 4) if thorough else (3,)):
+        for si in range(len(_tree_shapes(N))):
+            for rescale in (True, False):
+                for variant in ('single', 'batch') + (('batch3', 'shared-tree') if thorough else ()):
+                    ts.append(('intended', 'integrated', N, 'time-aware', rescale, variant, si, thorough and si % 2 == 1))
+        for variant in ('single', 'batch', 'shared-tree'):
+            ts.append(('intended', 'integrated', N, 'weighted', True, variant, 0, False))
+    return ts
 
 
 def tasks_for(tier):
@@ -481,6 +893,7 @@ def tasks_for(tier):
             ts.append(('gmrf', N, 'time-aware', True, False))
             ts.append(('gmrf', N, 'time-aware', False, False))
     ts += [('integrated-time', 3, True), ('integrated-time', 3, False), ('ss-batched', 4)]
+    ts += intended_tasks(tier)
     n = 3
     for perm in itertools.permutations(range(n)):
         ts.append(('coalint', n, perm))
@@ -502,7 +915,8 @@ def body(chk):
                        'precisions, hyper-parameters, heights and population sizes; event orderings are path regions')
     chk.total.assumptions |= {'Gamma-integral lemma (trusted): int_0^inf t^(a-1) e^(-b t) dt = Gamma(a)/b^a; lgamma/log uninterpreted',
                               'numerical quadrature (mpmath) is used only in replays'}
-    chk.total.bounds['sizes'] = 'field length 2..4 (5 thorough), n=3 taxa (4 thorough), grid <= 1 (2 thorough), shapes [] and [2]'
+    chk.total.bounds['sizes'] = ('field length 2..4 (5 thorough), n=3 taxa (4 thorough), grid <= 1 (2 thorough), shapes [] and [2] '
+                                 '([3] thorough, intended-structure-matrix obligations only)')
     pmap(run_task, tasks_for(chk.tier), chk.total)
 
 
